@@ -11,7 +11,7 @@
     * for EVERY plaintext and EVERY split into `Write`s, what reaches the
       writer is the header packet followed by the packets of the all-at-once
       chunk plan of the concatenation up to the first packet number the packet
-      function refuses (`okBytes`; `ErrPacketOverflow` at 2^64−1 packets is the
+      function refuses (`planOkBytes`; `ErrPacketOverflow` at 2^64−1 packets is the
       only refusal of the three instances) — so any two splits of the same
       plaintext leave the SAME bytes, no hypothesis on what the calls returned;
     * when the all-at-once form exists (`oneShot … = .ok M`, resp.
@@ -33,7 +33,7 @@ theorem C13_scripted_writer_never_fails : GoodWriter Wr.write (fun w => w.sink =
     configuration meeting the side conditions the three instances meet
     (`C14_codec_pieces_segment`, `C14_packet_functions_refuse_by_number`):
     the constructor succeeds; the bytes at the writer after `Close` are the
-    header packet and `okBytes` of the plan of the concatenated plaintext; if
+    header packet and `planOkBytes` of the plan of the concatenated plaintext; if
     the all-at-once plan has bytes `B`, every call reports success. -/
 theorem C13_sender_stream_total {ω : Type} (wr : ω → Bytes → Bool × ω) (obs : ω → Bytes) (good : ω → Prop)
     (hw : ObsWriter wr obs) (hg : GoodWriter wr good) (cfg : Cfg) (hp : ∀ b, (cfg.pieces b).flatten = b)
@@ -41,15 +41,15 @@ theorem C13_sender_stream_total {ω : Type} (wr : ω → Bytes → Bool × ω) (
     (w0 : ω) (hw0 : good w0) (headerBytes : Bytes) (ws : List Bytes) :
     (PSt.init wr cfg.pieces w0 headerBytes).1 = true ∧
     obs ((PSt.writes wr cfg (PSt.init wr cfg.pieces w0 headerBytes).2 ws).2.close wr cfg).2.codec.w =
-      obs w0 ++ headerPacket headerBytes ++ okBytes cfg.pkt (Encrypt.chunkPlan v cfg.bs ws.flatten) 0 ∧
+      obs w0 ++ headerPacket headerBytes ++ planOkBytes cfg.pkt (Encrypt.chunkPlan v cfg.bs ws.flatten) 0 ∧
     (∀ B, planBytes cfg.pkt (Encrypt.chunkPlan v cfg.bs ws.flatten) 0 = .ok B →
       (PSt.writes wr cfg (PSt.init wr cfg.pieces w0 headerBytes).2 ws).1 = ws.map (fun p => (p.length, none)) ∧
       ((PSt.writes wr cfg (PSt.init wr cfg.pieces w0 headerBytes).2 ws).2.close wr cfg).1 = none) :=
   run_good wr obs good hw hg cfg hp hb hif v hv w0 hw0 headerBytes ws
 
-/-- `okBytes` is the all-at-once body when that exists -/
+/-- `planOkBytes` is the all-at-once body when that exists -/
 theorem C13_okBytes_is_plan (pkt : Nat → Bytes → Bool → Except Err Bytes) (pl : List (Bytes × Bool)) (B : Bytes)
-    (h : planBytes pkt pl 0 = .ok B) : okBytes pkt pl 0 = B := okBytes_of_ok pkt pl 0 B h
+    (h : planBytes pkt pl 0 = .ok B) : planOkBytes pkt pl 0 = B := planOkBytes_of_ok pkt pl 0 B h
 
 /-- **Two splits of the same plaintext, same bytes — unconditionally**: no
     hypothesis on what the calls returned, and also when a packet number is
@@ -210,10 +210,10 @@ example : run toy [[1], [], [2, 3], [4], [], [5], []] =
     (true, [(1, none), (0, none), (2, none), (1, none), (0, none), (1, none), (0, none)], none,
       [0xc4, 1, 7, 0, 0, 1, 2, 1, 0, 3, 4, 2, 1, 5]) := by decide
 example : oneShot toy v2 [7] [1, 2, 3, 4, 5] = .ok [0xc4, 1, 7, 0, 0, 1, 2, 1, 0, 3, 4, 2, 1, 5] := by decide
-/-- with refusals: the calls fail (differently per split), the BYTES agree and are `okBytes` -/
+/-- with refusals: the calls fail (differently per split), the BYTES agree and are `planOkBytes` -/
 example : (run toyOverflow [[1, 2, 3, 4, 5, 6, 7]]).2.2.2 = [0xc4, 1, 7, 0, 0, 1, 2, 1, 0, 3, 4] := by decide
 example : (run toyOverflow [[1, 2, 3], [4, 5], [6], [7]]).2.2.2 = [0xc4, 1, 7, 0, 0, 1, 2, 1, 0, 3, 4] := by decide
-example : okBytes toyOverflow.pkt (Encrypt.chunkPlan v2 2 [1, 2, 3, 4, 5, 6, 7]) 0 = [0, 0, 1, 2, 1, 0, 3, 4] := by decide
+example : planOkBytes toyOverflow.pkt (Encrypt.chunkPlan v2 2 [1, 2, 3, 4, 5, 6, 7]) 0 = [0, 0, 1, 2, 1, 0, 3, 4] := by decide
 example : IndexFail toyOverflow.pkt := by
   intro i c f e h c' f'
   by_cases hi : i < 2
